@@ -196,6 +196,8 @@ pub struct C13Stats {
     pub held: u64,
     pub boundary_exact: u64,
     pub funding_invariant_accounts: u64,
+    pub forced_reverts_with_auth_refund: u64,
+    pub forced_reverts_of_create_txs: u64,
 }
 
 /// Walk the block in order on the policy-on prefix state and check the three layers of C13
@@ -311,6 +313,9 @@ pub fn check_reserve(sc: &Scenario, m: &Materialised, txs: &[TxEnv], seq: &Grevm
                         ));
                     }
                     stats.violated += 1;
+                    if tx.kind.is_create() {
+                        stats.forced_reverts_of_create_txs += 1;
+                    }
                     match res_on {
                         ExecutionResult::Revert { output, .. } if output.is_empty() => {}
                         other => return Err(format!("tx {i}: reserve violation must be a top-level Revert with empty output, got {other:?}")),
@@ -340,8 +345,8 @@ pub fn check_reserve(sc: &Scenario, m: &Materialised, txs: &[TxEnv], seq: &Grevm
                         let is_benef = d.address == benef;
                         let n_auth = authorities.iter().filter(|a| **a == d.address).count() as u64;
                         let max_fee = U256::from(tx.gas_limit) * U256::from(tx.gas_price);
-                        let lo_nonce = pn + is_sender as u64;
-                        let hi_nonce = pn + is_sender as u64 + n_auth;
+                        let lo_nonce = pn.saturating_add(is_sender as u64);
+                        let hi_nonce = pn.saturating_add(is_sender as u64).saturating_add(n_auth);
                         if d.nonce < lo_nonce || d.nonce > hi_nonce {
                             return Err(format!("tx {i}: forced revert: nonce of {} went {pn} -> {} (allowed {lo_nonce}..={hi_nonce})", d.address, d.nonce));
                         }
@@ -352,6 +357,31 @@ pub fn check_reserve(sc: &Scenario, m: &Materialised, txs: &[TxEnv], seq: &Grevm
                         }
                         if d.code_hash != pre_code && n_auth == 0 {
                             return Err(format!("tx {i}: forced revert changed the code of {} which is not an authority of this transaction", d.address));
+                        }
+                    }
+                    // "keeps ... the authorisation refund": every authorisation that took effect (the
+                    // committed nonce bump beyond the sender's own) on an account that existed before
+                    // earns PER_EMPTY_ACCOUNT_COST - PER_AUTH_BASE_COST = 12500 of refund in stock revm,
+                    // capped at a fifth of the gas spent (EIP-3529); the forced revert discards only
+                    // execution-state refunds, so its refund cannot be smaller than that
+                    let mut refundable_auths = 0u64;
+                    for d in &delta_on {
+                        if d.deleted {
+                            continue;
+                        }
+                        let pre = state.basic(d.address).ok().flatten();
+                        if let Some(p) = pre {
+                            if !p.is_empty() && authorities.contains(&d.address) {
+                                refundable_auths += d.nonce.saturating_sub(p.nonce.saturating_add((d.address == sender) as u64));
+                            }
+                        }
+                    }
+                    if refundable_auths > 0 {
+                        stats.forced_reverts_with_auth_refund += 1;
+                        let g = res_on.gas();
+                        let least = (12_500 * refundable_auths).min(g.total_gas_spent() / 5);
+                        if g.inner_refunded() < least {
+                            return Err(format!("tx {i}: forced revert lost the authorisation refund: {refundable_auths} authorisation(s) of existing accounts took effect, gas {g:?}, refund must be at least {least}"));
                         }
                     }
                     // advance the policy-on prefix with the (validated) committed delta
